@@ -6,3 +6,5 @@ import SsqlVerif.Props.C09
 #print axioms C09.counting_no_row_twice
 #print axioms C09.counting_eq_chunks_tuple
 #print axioms C09.facts_counting
+#print axioms C09.windowKey_determines_group_partial
+#print axioms C09.windowKey_determines_group_fails
